@@ -111,6 +111,9 @@ def _check_inserted(h, spec, pos, res, where):
             exp = rem[s - 1] if s > 0 else spec["tasks"][i]["work"] * (1.0 - spec["tasks"][i]["prog"])
             if rem[s] != exp:
                 res.fail("C18.inserted_remaining", "%s: task %s remaining %r at inserted step %d, preceding value %r" % (where, t.ID, rem[s], s, exp), sig="step0" if s == 0 else "")
+        for c in h.comps:
+            if int(c.state_record_list[s]) == S.WORKING:
+                res.fail("C18.inserted_working", "%s: component %s logged WORKING at inserted step %d" % (where, c.ID, s), sig="component")
         for kind, objs in (("worker", h.workers), ("facility", h.facs)):
             for r in objs:
                 if int(r.state_record_list[s]) == S.R_WORKING:
